@@ -42,26 +42,39 @@ theorem extractLoop_root (t₁ t₂ : Rules.Trace) (h : t₁.root = t₂.root) (
   | nil => rfl
   | cons f fs ih => simp only [Rules.extractLoop, h, ih]
 
-theorem extract_congr (t₁ t₂ : Rules.Trace) (hr : t₁.root = t₂.root)
-    (hl : t₁.spans.length = t₂.spans.length) (s : Rules.Span) (c : Cond) :
-    Rules.extract t₁ s c = Rules.extract t₂ s c := by
-  simp only [Rules.extract, hl, extractLoop_root t₁ t₂ hr]
+/-- with `CheckNestedFields` off (as in every trace built here, `mkRulesTrace`) a value is found
+by the field loop or not at all -/
+theorem extract_flat (E : Ext) (t : Rules.Trace) (hn : t.nested = false) (s : Rules.Span) (c : Cond) :
+    Rules.extract E t s c =
+      if Rules.isNumDescendants c then { val := .int t.spans.length, ex := true, cor := true }
+      else if (Rules.extractLoop t s (Rules.effFields c) true).ex then Rules.extractLoop t s (Rules.effFields c) true
+      else { val := .nil, ex := false, cor := false } := by
+  simp [Rules.extract, hn]
+
+theorem extract_congr (E : Ext) (t₁ t₂ : Rules.Trace) (hr : t₁.root = t₂.root)
+    (hl : t₁.spans.length = t₂.spans.length) (hn₁ : t₁.nested = false) (hn₂ : t₂.nested = false)
+    (s : Rules.Span) (c : Cond) : Rules.extract E t₁ s c = Rules.extract E t₂ s c := by
+  simp only [extract_flat E _ hn₁, extract_flat E _ hn₂, hl, extractLoop_root t₁ t₂ hr]
 
 theorem condOnSpan_congr (E : Ext) (t₁ t₂ : Rules.Trace) (hr : t₁.root = t₂.root)
-    (hl : t₁.spans.length = t₂.spans.length) (c : Cond) (s : Rules.Span) :
-    Rules.condOnSpan E t₁ c s = Rules.condOnSpan E t₂ c s := by
-  simp only [Rules.condOnSpan, extract_congr t₁ t₂ hr hl]
+    (hl : t₁.spans.length = t₂.spans.length) (hn₁ : t₁.nested = false) (hn₂ : t₂.nested = false)
+    (c : Cond) (s : Rules.Span) : Rules.condOnSpan E t₁ c s = Rules.condOnSpan E t₂ c s := by
+  simp only [Rules.condOnSpan, extract_congr E t₁ t₂ hr hl hn₁ hn₂]
 
 /-- Reordering the spans does not change whether a rule matches, in either scope. -/
 theorem ruleMatches_perm (E : Ext) (root : Option Rules.Span) (s₁ s₂ : List Rules.Span) (h : s₁.Perm s₂)
-    (r : Rules.Rule) : Rules.ruleMatches E ⟨s₁, root⟩ r = Rules.ruleMatches E ⟨s₂, root⟩ r := by
-  have hc : ∀ c s, Rules.condOnSpan E ⟨s₁, root⟩ c s = Rules.condOnSpan E ⟨s₂, root⟩ c s :=
-    fun c s => condOnSpan_congr E ⟨s₁, root⟩ ⟨s₂, root⟩ rfl h.length_eq c s
+    (r : Rules.Rule) :
+    Rules.ruleMatches E (mkRulesTrace s₁ root) r = Rules.ruleMatches E (mkRulesTrace s₂ root) r := by
+  have hc : ∀ c s, Rules.condOnSpan E (mkRulesTrace s₁ root) c s = Rules.condOnSpan E (mkRulesTrace s₂ root) c s :=
+    fun c s => condOnSpan_congr E (mkRulesTrace s₁ root) (mkRulesTrace s₂ root) rfl h.length_eq rfl rfl c s
+  have hs₁ : (mkRulesTrace s₁ root).spans = s₁ := rfl
+  have hs₂ : (mkRulesTrace s₂ root).spans = s₂ := rfl
+  have hroot : (mkRulesTrace s₁ root).root = (mkRulesTrace s₂ root).root := rfl
   unfold Rules.ruleMatches
   cases r.scope with
   | invalid => rfl
   | span =>
-    simp only [C08.span_scope_spec]
+    simp only [C08.span_scope_spec, hs₁, hs₂]
     congr 1
     rw [h.any_eq]
     congr 1
@@ -71,7 +84,7 @@ theorem ruleMatches_perm (E : Ext) (root : Option Rules.Span) (s₁ s₂ : List 
     simp only [C08.trace_scope_spec]
     congr 1
     funext c
-    simp only [C08.traceCondSpec]
+    simp only [C08.traceCondSpec, hs₁, hs₂, hroot]
     split
     · rfl
     · rw [h.any_eq]
@@ -267,6 +280,8 @@ def SpanSim (E : Ext) (a b : Rules.Span) : Prop := DataSim (RSim E) a.data b.dat
 structure TSim (E : Ext) (t₁ t₂ : Rules.Trace) : Prop where
   spans : All₂ (SpanSim E) t₁.spans t₂.spans
   root : Option.Rel (SpanSim E) t₁.root t₂.root
+  flat₁ : t₁.nested = false        -- `CheckNestedFields` off
+  flat₂ : t₂.nested = false
 
 structure ExSim (E : Ext) (x y : Rules.Extract) : Prop where
   val : RSim E x.val y.val
@@ -306,11 +321,15 @@ theorem extractLoop_sim (E : Ext) {t₁ t₂ : Rules.Trace} (hroot : Option.Rel 
       | some hv => exact ⟨hv, rfl, rfl⟩
 
 theorem extract_sim (E : Ext) {t₁ t₂ : Rules.Trace} (ht : TSim E t₁ t₂) {s₁ s₂ : Rules.Span}
-    (hs : SpanSim E s₁ s₂) (c : Cond) : ExSim E (Rules.extract t₁ s₁ c) (Rules.extract t₂ s₂ c) := by
-  unfold Rules.extract
+    (hs : SpanSim E s₁ s₂) (c : Cond) : ExSim E (Rules.extract E t₁ s₁ c) (Rules.extract E t₂ s₂ c) := by
+  rw [extract_flat E t₁ ht.flat₁, extract_flat E t₂ ht.flat₂]
+  have h := extractLoop_sim E ht.root hs (Rules.effFields c) true
   split
   · rw [ht.spans.length_eq]; exact ⟨RSim.rfl' E _, rfl, rfl⟩
-  · exact extractLoop_sim E ht.root hs _ _
+  · rw [h.ex]
+    split
+    · exact h
+    · exact ⟨RSim.rfl' E _, rfl, rfl⟩
 
 theorem condOnSpan_sim (E : Ext) {t₁ t₂ : Rules.Trace} (ht : TSim E t₁ t₂) {s₁ s₂ : Rules.Span}
     (hs : SpanSim E s₁ s₂) (c : Cond) : Rules.condOnSpan E t₁ c s₁ = Rules.condOnSpan E t₂ c s₂ := by
@@ -457,7 +476,7 @@ theorem encoding_invariant_of_sim (S : Samplers) (t₁ t₂ : ETrace)
     (hs : All₂ (ESpanSim S) t₁.spans t₂.spans) (hr : Option.Rel (ESpanSim S) t₁.root t₂.root) :
     outcome S t₁ = outcome S t₂ := by
   have hT : TSim S.E (rulesTrace S.dec t₁) (rulesTrace S.dec t₂) :=
-    ⟨All₂.map (fun _ _ h => rulesSpan_sim S h) hs, optRel_map (fun _ _ h => rulesSpan_sim S h) hr⟩
+    ⟨All₂.map (fun _ _ h => rulesSpan_sim S h) hs, optRel_map (fun _ _ h => rulesSpan_sim S h) hr, rfl, rfl⟩
   have hKs : All₂ (KSpanSim S.render) (keyTrace S.dec t₁).spans (keyTrace S.dec t₂).spans :=
     All₂.map (fun _ _ h => keySpan_sim S h) hs
   have hKr : Option.Rel (KSpanSim S.render) (keyTrace S.dec t₁).root (keyTrace S.dec t₂).root :=
@@ -668,7 +687,7 @@ def mkS (rules : List Rules.Rule) (keyFields : List String) : Samplers where
   rules := rules
   downs := fun _ => .missing
   intn := fun _ => 0
-  keyCfg := ⟨keyFields, false⟩
+  keyCfg := { fields := keyFields, useTraceLength := false }
   dyn := fun _ _ => 1
   dintn := fun _ => 0
 
@@ -813,10 +832,12 @@ def spR (p : Path) (a b : Wire) : ESpan := ⟨p, [("a", a), ("b", b)]⟩
 
 -- three spans in two orders and two mixes of paths / encodings: same outcome, and it is a drop by rule r0
 example : outcome sEx ⟨[spA mb (.mint 200), spR mb (.mint 5) (.mstr "abc"), spA mb (.mint 404)], some (spR mb (.mint 5) (.mstr "abc"))⟩
-    = ⟨⟨1, false, .rule .span "r0", ""⟩, "200•404•5•,abc,", ⟨1, true⟩⟩ := by decide
+    = { rules := { rate := 1, keep := false, reason := .rule .span "r0", key := "" }, dynKey := "200•404•5•,abc,",
+        dyn := { rate := 1, keep := true } } := by decide
 example : outcome sEx ⟨[spA ⟨.otlp, true⟩ (.odbl 404 1), spA ⟨.msgpEvent, false⟩ (.mf32 200 1), spR ⟨.msgpEvent, true⟩ (.mf64 5 1) (.mbin "abc")],
       some (spR ⟨.msgpEvent, true⟩ (.mf64 5 1) (.mbin "abc"))⟩
-    = ⟨⟨1, false, .rule .span "r0", ""⟩, "200•404•5•,abc,", ⟨1, true⟩⟩ := by decide
+    = { rules := { rate := 1, keep := false, reason := .rule .span "r0", key := "" }, dynKey := "200•404•5•,abc,",
+        dyn := { rate := 1, keep := true } } := by decide
 example : BelowCaps sEx [spA mb (.mint 200), spR mb (.mint 5) (.mstr "abc"), spA mb (.mint 404)] :=
   ⟨by decide, by intro id c ans r h; simp [sEx, mkS] at h⟩
 example : SafeSpans sEx (spR mb (.mint 5) (.mstr "abc")) (spR ⟨.msgpEvent, true⟩ (.mf64 5 1) (.mbin "abc")) :=
